@@ -107,6 +107,16 @@ def parse_sections(text: str) -> SectionConfig:
 
             # Start new section
             section_name = header_match.group(1).strip()
+            # Results are keyed by section name: a second section with the same name
+            # would be merged into the first and its merchants counted twice.
+            taken = [s.name for s in sections]
+            if current_section is not None:
+                taken.append(current_section.name)
+            if section_name in taken:
+                raise SectionParseError(
+                    f"Duplicate section name [{section_name}]",
+                    line_num, line
+                )
             current_section = Section(
                 name=section_name,
                 filter_expr="",
